@@ -11,7 +11,7 @@ from typing import Any, Callable, Dict, List, Sequence, Tuple
 import numpy as np
 
 CONSTRUCTS = ("while", "fori", "scan", "cond", "fn", "fn_unique")
-BODY_VARIANTS = ("pure", "const", "tracer", "shape_twice")
+BODY_VARIANTS = ("pure", "const", "tracer", "shape_twice", "post_dim", "fn_reuse")
 
 _FN_COUNTER = [0]
 
@@ -67,6 +67,8 @@ def wrap(construct: str, inner: Callable, variant: str) -> Callable:
 
     def with_outer(x, outer):
         # the value a deeper level may capture as a tracer
+        if variant == "post_dim":
+            return outer  # thread the top-level capture (which carries the batch dimension) down to the leaf
         return (x * 0.5) if variant == "tracer" else None
 
     if construct == "while":
@@ -107,6 +109,22 @@ def wrap(construct: str, inner: Callable, variant: str) -> Callable:
 
 def nest_program(word: Sequence[str], variant: str) -> Callable:
     """word[0] is the outermost construct."""
+    import jax.numpy as jnp
+    if variant == "post_dim":
+        # the carried value does NOT have the (possibly symbolic) batch dimension, but the bodies capture and reduce a
+        # value that has it; the outer scope needs that dimension again after the construct
+        f = lambda c, outer=None: c * 2.0 + (jnp.sum(outer, axis=0) if outer is not None else 1.0)  # noqa: E731
+        for c in reversed(list(word)):
+            f = wrap(c, f, "post_dim")
+        return lambda x: jnp.broadcast_to(f(jnp.sum(x, axis=0) * 0.5, x)[None, :], (x.shape[0], 3)) + x * 0.0
+    if variant == "fn_reuse":
+        # one decorated function with a shape-specific body instantiated with two signatures: deep inside the nest
+        # (last dim 3) and again at top level (last dim 2)
+        g = _fresh_fn(lambda y: y * jnp.asarray(np.arange(1, y.shape[-1] + 1, dtype=np.float32)) + 1.0, False)
+        f = lambda y, outer=None: g(y)  # noqa: E731
+        for c in reversed(list(word)):
+            f = wrap(c, f, "pure")
+        return lambda x: f(x, None) + jnp.sum(g(x[:, :2]))
     f = leaf_body(variant)
     for c in reversed(list(word)):
         f = wrap(c, f, variant)
